@@ -431,7 +431,7 @@ def run_check(pid: str, tier: str, seed: int, jobs: int | None = None, n_cases: 
     check = get_check(pid)
     jobs = jobs or min(16, os.cpu_count() or 4)
     n = n_cases or (check.quick_cases if tier == "quick" else check.thorough_cases)
-    budget = float(os.environ.get("VERIF_BUDGET_S", "150" if tier == "quick" else "1500"))
+    budget = float(os.environ.get("VERIF_BUDGET_S", "240" if tier == "quick" else "2400"))
     # interleaved shards so every worker sees the whole index range
     shards = [list(range(k, n, jobs)) for k in range(jobs)]
     shards = [s for s in shards if s]
